@@ -147,3 +147,15 @@ contract(f"{FS}::FileSystem.delete_file", props=["C15"],
                   ("counted", "self.num_file_deletions == old(self.num_file_deletions) + (1 if result else 0)")],
          modifies=["self.num_file_deletions", "Folder.files", "Folder.deleted_files", "File.deleted", "File.num_access", "heap"],
          allocates=True, bounded=2)
+
+# ---- restoring a folder never produces a second live folder of the same name ---------------------------------------------------------------
+spec("live_folder_names_distinct(fs)", "forall(a, 0, len(fs.folders), forall(b, 0, len(fs.folders), implies(a != b, dict_val(fs.folders, a).name != dict_val(fs.folders, b).name)))")
+contract(f"{FS}::FileSystem.restore_folder", props=["C15"], bounded=2,
+         requires=["wf_fs_keys(self)", "forall(j, 0, len(self.deleted_folders), fkey_ok(self.deleted_folders, j))", "live_folder_names_distinct(self)",
+                   # a folder is filed in exactly one of the two maps
+                   "forall(a, 0, len(self.folders), forall(b, 0, len(self.deleted_folders), dict_val(self.folders, a) is not dict_val(self.deleted_folders, b)"
+                   " and dict_key(self.folders, a) != dict_key(self.deleted_folders, b)))"],
+         ensures=[("live_names_stay_distinct", "live_folder_names_distinct(self)"),
+                  ("a_live_folder_of_that_name_is_the_one_restored", "implies(old(fs_has_live_folder(self, folder_name)), same_dict(self.folders) and same_dict(self.deleted_folders))"),
+                  ("absent_refused", "implies(not old(fs_has_live_folder(self, folder_name)) and not old(fs_has_deleted_folder(self, folder_name)), result == False and unchanged())")],
+         modifies=["heap"], allocates=True)
